@@ -12,7 +12,10 @@ PROP = dict(
          "k-shortest-path picks) on a generated dictionary x composition, recomputed from scratch by the model from the "
          "dictionary answers in the record; streams: valid (inside the quantifier: oracle failures are new), invalidsel "
          "(F31, known; component tag convx, compared but outside the scope because outside the theorems' hypotheses), noword (outside the quantifier: F02 panic / F30 spelling must be predicted by the model), bigfreq "
-         "(score overflow panics must be predicted). distinct = distinct record text",
+         "(score overflow panics must be predicted). distinct = distinct record text. In addition (oracle only, no model records) "
+         "seeded editor key histories (type syllables / symbols, move, delete, Tab, open list + choose, Esc, Enter; 3 engines; "
+         "options varied): after every key Editor::intervals must tile Editor::len, one character per symbol, character symbols "
+         "verbatim, Editor::display = concatenation (generator_stats ed.*)",
     trusted_base=["`slice::sort_unstable_by_key` returns some sorted permutation (the model takes the pick among equal-length "
                   "candidates from the implementation, exported by the guarded hook ChewingEngine::verif_k_paths, after checking "
                   "it is a candidate of minimal length); `sort_by` / `sort_by_key` are stable",
